@@ -42,7 +42,8 @@ def cases(tier):
                             continue
                         out.append(("bs", dk, (df, degree, intercept, nk)))
     out += [("bs_bounds", kind, None) for kind in ("lower>upper", "knot<lower", "knot>upper", "knots2d", "df_float", "degree_float", "ok_bounds", "knots_unsorted_out_high", "knots_unsorted_out_low", "knots_unsorted_ok",
-                                                    "lower_only_above_data", "upper_only_below_data", "lower_only_above_data_knots", "int_knots_list", "int_knots_array", "int_knots_tuple", "lower_only_ok", "upper_only_ok")]
+                                                    "lower_only_above_data", "upper_only_below_data", "lower_only_above_data_knots", "int_knots_list", "int_knots_array", "int_knots_tuple", "lower_only_ok", "upper_only_ok",
+                                                    "poly_deg_eq_distinct", "poly_deg_gt_distinct", "poly_deg_binary", "poly_deg_ok_max", "poly_raw_any")]
     return out
 
 
@@ -153,7 +154,22 @@ def _harness(env, case):
         if sym and kind == "poly_orth":
             # general position: the data are not all equal (otherwise the norms vanish)
             env.assume(z3.Or([x[i].e != x[0].e for i in range(1, n)]), "poly: x not constant")
-        dm = build(f"y ~ {name}", df)
+        # a degree that the data cannot support (not more than d distinct values) is refused; any other refusal is not
+        try:
+            with env.running():
+                dm = design_matrices(f"y ~ {name}", df)
+        except (symx.PathEnd, symx.Inconclusive):
+            raise
+        except ValueError as e:
+            if sym:
+                more = z3.Or([z3.And([symx.to_z3(a) != symx.to_z3(b) for a, b in itertools.combinations(sub, 2)]) for sub in itertools.combinations(list(x), d + 1)]) if n > d else z3.BoolVal(False)
+                env.prove(z3.Not(more), "poly refuses a degree only when the data have no more than d distinct values", {"exc": type(e).__name__, "msg": str(e)[:100]})
+            else:
+                env.prove(len(set(float(v) for v in x)) <= d, "poly refuses a degree only when the data have no more than d distinct values", {"msg": str(e)[:100]})
+            return
+        except Exception as e:
+            env.fail("a valid transform call is refused", {"formula": name, "exc": type(e).__name__, "site": core.repo_site(e), "msg": str(e)[:160]})
+            return
         M = np.asarray(dm.common[name]).reshape(n, -1)
         env.prove(M.shape == (n, d), "poly: d columns")
         for j in range(M.shape[1]):
@@ -272,7 +288,7 @@ def _harness(env, case):
     if kind == "bs_bounds":
         rng = np.random.RandomState(7)
         xs = rng.uniform(0, 10, 30)
-        data = pd.DataFrame({"y": rng.normal(size=30), "x": xs})
+        data = pd.DataFrame({"y": rng.normal(size=30), "x": xs, "t3": [0.0, 1.0, 2.5] * 10, "b2": [0.0, 1.0] * 15})
         table = {
             "lower>upper": ("bs(x, df=4, lower_bound=8, upper_bound=2)", True), "knot<lower": ("bs(x, knots=kn, lower_bound=5)", True), "knot>upper": ("bs(x, knots=kn, upper_bound=5)", True),
             "knots2d": ("bs(x, knots=kn2)", True), "df_float": ("bs(x, df=4.5)", True), "degree_float": ("bs(x, df=4, degree=2.0)", True), "ok_bounds": ("bs(x, df=5, lower_bound=-1, upper_bound=11)", False),
@@ -281,6 +297,8 @@ def _harness(env, case):
             "lower_only_above_data": ("bs(x, 3, lower_bound=12)", True), "upper_only_below_data": ("bs(x, df=4, degree=3, intercept=True, upper_bound=-1)", True), "lower_only_above_data_knots": ("bs(x, knots=kn, lower_bound=12)", True),
             "int_knots_list": ("bs(x, knots=ki)", False), "int_knots_array": ("bs(x, knots=kia)", False), "int_knots_tuple": ("bs(x, knots=kit)", False),
             "lower_only_ok": ("bs(x, df=4, lower_bound=-2)", False), "upper_only_ok": ("bs(x, df=4, upper_bound=12)", False),
+            # orthonormal poly: the degree must stay below the number of distinct values (t3 has 3, b2 has 2)
+            "poly_deg_eq_distinct": ("poly(t3, 3)", True), "poly_deg_gt_distinct": ("poly(t3, 5)", True), "poly_deg_binary": ("poly(b2, 2)", True), "poly_deg_ok_max": ("poly(t3, 2)", False), "poly_raw_any": ("poly(t3, 4, raw=True)", False),
         }
         f, must = table[n]
         try:
